@@ -9,7 +9,8 @@ parameters, regex match table, accept q-values, lineage); `impl` sends the reque
 """
 import hashlib, itertools, json, re
 
-from zope.interface import Interface, implementer, providedBy, implementedBy, alsoProvides
+from zope.interface import (Interface, implementer, providedBy, implementedBy, alsoProvides, noLongerProvides,
+                            directlyProvides, directlyProvidedBy)
 from zope.interface.interface import InterfaceClass
 
 from pyramid.config import Configurator, not_
@@ -17,7 +18,7 @@ from pyramid.interfaces import IRequest, IRouteRequest, IAcceptOrder
 from pyramid.request import Request
 from pyramid.response import Response
 from pyramid.security import Allowed, Denied
-from pyramid.events import ContextFound
+from pyramid.events import ContextFound, NewRequest, BeforeTraversal
 from pyramid.registry import predvalseq
 from webob.acceptparse import Accept
 
@@ -35,7 +36,10 @@ RULE = ('one case = one application (2-5 context classes with single/multiple in
 
 I1 = InterfaceClass('I1', (Interface,), __doc__='harness interface 1')
 I2 = InterfaceClass('I2', (I1,), __doc__='harness interface 2 (extends I1)')
-IFACES = {1: I1, 2: I2}
+I3 = InterfaceClass('I3', (Interface,), __doc__='harness marker interface 3 (independent of I1/I2; mostly applied at run time)')
+IFACES = {1: I1, 2: I2, 3: I3}
+# points of a request at which a marker interface may be put on / taken off a resource INSTANCE (case['marks']):
+MARK_POINTS = ('new_request', 'root_factory', 'before_traversal', 'traversal', 'context_found')
 IFACE_ID_OTHER = 90          # resolution-order members no registration can name (implementedBy(object), …)
 
 OFFER_BASES = ['text/html', 'application/json', 'text/plain', 'application/x-foo', 'image/x-bar']
@@ -97,7 +101,14 @@ CUSTOMS = [_mk_custom(i) for i in range(4)]
 
 
 class Node(dict):
-    """a resource: traversable (dict of children)"""
+    """a resource: traversable (dict of children); `__getitem__` may mark the child it hands out (case['marks'])"""
+
+    def __getitem__(self, key):
+        child = dict.__getitem__(self, key)
+        hook = self.__dict__.get('_c03_hook')
+        if hook is not None:
+            hook(child)
+        return child
 
 
 def make_classes(spec):
@@ -177,8 +188,44 @@ def build_app(case):
         parent = n
     w.nodes = nodes
     root = nodes[0]
+    # what every node provides directly when a request starts (marks made during a request are undone by run_request)
+    w.initial_marks = [directlyProvidedBy(n) for n in nodes]
+    marks = case.get('marks') or []
+
+    def apply_marks(point, target=None):
+        """marks of this point; a mark names the node by depth, or 'ctx' (= the context, at context_found only)"""
+        for m in marks:
+            if m['at'] != point:
+                continue
+            if m['node'] == 'ctx':
+                node = target
+            else:
+                node = nodes[m['node']] if m['node'] < len(nodes) else None
+                if point == 'traversal' and node is not target:
+                    continue
+            if node is None:
+                continue
+            iface = IFACES[m['iface']]
+            if m['op'] == 'also':
+                alsoProvides(node, iface)
+            elif m['op'] == 'nolonger':
+                if iface in directlyProvidedBy(node):
+                    noLongerProvides(node, iface)
+            else:
+                directlyProvides(node, iface)
+    for n in nodes:
+        if any(m['at'] == 'traversal' for m in marks):
+            n.__dict__['_c03_hook'] = lambda child: apply_marks('traversal', child)
+
+    def root_factory(request):
+        apply_marks('root_factory')
+        return root
     auto = case.get('commit', 'auto') == 'auto'
-    config = Configurator(root_factory=lambda request: root, autocommit=auto)
+    config = Configurator(root_factory=root_factory, autocommit=auto)
+    if marks:
+        config.add_subscriber(lambda ev: apply_marks('new_request'), NewRequest)
+        config.add_subscriber(lambda ev: apply_marks('before_traversal'), BeforeTraversal)
+        config.add_subscriber(lambda ev: apply_marks('context_found', ev.request.context), ContextFound)
     config.set_security_policy(_Policy())
     if not auto:
         config.commit()
@@ -187,10 +234,14 @@ def build_app(case):
     if not auto:
         config.commit()
     w.views = {}
+    captured = {}
     for reg in case['regs']:
         tag = reg['tag']
 
         def view(context, request, tag=tag):
+            # the classification of the context re-read at the moment the view body runs (must equal the snapshot
+            # taken by the last ContextFound subscriber: nothing the harness registers marks after that)
+            captured['csro_at_view'] = [spec_id(w, s_) for s_ in providedBy(context).__sro__]
             resp = Response('V%d' % tag)
             resp.headers['X-Tag'] = 'V%d' % tag
             return resp
@@ -214,11 +265,15 @@ def build_app(case):
     if case.get('nf', True):
         config.add_notfound_view(notfound)
     config.add_forbidden_view(forbidden)
-    captured = {}
-
     def on_context(event):
+        # LAST ContextFound subscriber: the classification the statement's "context type ... following the context's
+        # class and interface resolution order" refers to is the one in force when the lookup starts, i.e. after every
+        # ContextFound subscriber ran.  Computed here by the harness (zope.interface only), not read from the router.
+        ctx = event.request.context
         captured['request'] = event.request
-        captured['context'] = event.request.context
+        captured['context'] = ctx
+        captured['csro'] = [spec_id(w, s_) for s_ in providedBy(ctx).__sro__]
+        captured['lineage'] = lineage_ids(w, ctx)
     config.add_subscriber(on_context, ContextFound)
     if not auto:
         config.commit()
@@ -232,7 +287,7 @@ _APP_CACHE = {}
 
 
 def get_world(case):
-    key = json.dumps({k: case[k] for k in ('classes', 'tree', 'routes', 'regs', 'commit', 'nf') if k in case}, sort_keys=True)
+    key = json.dumps({k: case[k] for k in ('classes', 'tree', 'routes', 'regs', 'commit', 'nf', 'marks') if k in case}, sort_keys=True)
     w = _APP_CACHE.get(key)
     if w is None:
         if len(_APP_CACHE) > 64:
@@ -268,6 +323,8 @@ def run_request(w, case):
     """send the request through Router.__call__; returns the canonical outcome"""
     env = make_environ(case['req'])
     w.captured.clear()
+    for n, init in zip(w.nodes, w.initial_marks):        # undo what an earlier request's marks left on the instances
+        directlyProvides(n, init)
     status_headers = {}
 
     def start_response(status, headers, exc_info=None):
@@ -451,8 +508,12 @@ def evaluate(case):
     regs, real = model_regs(w, case, ids)
     ctx = w.captured.get('context')      # Router.finish_request pops request.context; captured at ContextFound
     rsro = [req_iface_id(w, case, i) for i in request.request_iface.__sro__]
-    csro = [spec_id(w, s) for s in providedBy(ctx).__sro__]
+    csro = w.captured['csro']                          # snapshot of the last ContextFound subscriber
+    at_view = w.captured.get('csro_at_view')
+    if at_view is not None and at_view != csro:
+        raise AssertionError('harness: context classification changed between the last ContextFound subscriber and the view body')
     areq = abstract_request(w, case, env, ids, request, ctx, request.view_name, rsro, csro)
+    areq['lineage'] = w.captured['lineage']            # containment is evaluated against the lineage of that moment too
     return w, out, {'regs': regs, 'req': areq, 'cls': 0}, real
 
 
@@ -650,12 +711,12 @@ def gen_classes(rng):
     return spec
 
 
-def gen_ctx_ref(rng, nclasses, p_none=0.3, rel=None):
+def gen_ctx_ref(rng, nclasses, p_none=0.3, rel=None, ifaces=(1, 2), p_iface=0.15):
     r = rng.random()
     if r < p_none:
         return None
-    if r < p_none + 0.15:
-        return ['i', rng.choice([1, 2])]
+    if r < p_none + p_iface:
+        return ['i', rng.choice(list(ifaces))]
     if rel and rng.random() < 0.8:
         return ['c', rng.choice(rel)]
     return ['c', rng.randrange(nclasses)]
@@ -751,16 +812,27 @@ def gen_app(rng, big=False):
         p_accept = 0.65
     nregs = rng.choice([2, 3, 4, 5, 6, 8] if not big else [6, 8, 10, 12, 14])
     regs = []
+    # run-time marking (30 % of the apps): marker interfaces put on / taken off resource instances by the root factory, by
+    # __getitem__ during traversal, by NewRequest / BeforeTraversal / ContextFound subscribers; the views then compete on
+    # the marker interfaces as well
+    marks = []
+    ifaces, p_iface = (1, 2), 0.15
+    if rng.random() < 0.3:
+        for _ in range(rng.choice([1, 1, 2, 3])):
+            at = rng.choice(MARK_POINTS + ('context_found', 'context_found'))
+            marks.append({'at': at, 'node': 'ctx' if at == 'context_found' and rng.random() < 0.7 else rng.randrange(depth),
+                          'op': rng.choice(['also', 'also', 'also', 'nolonger', 'directly']), 'iface': rng.choice([1, 2, 3, 3])})
+        ifaces, p_iface = (1, 2, 3, 3), 0.4
     # a few "focus" slots so that views really compete
     rel = related_classes(classes, tree)
-    focus = [(gen_ctx_ref(rng, n, 0.25, rel), rng.choice(['', '', 'x']), rng.choice([None, None] + [r['name'] for r in routes]))
+    focus = [(gen_ctx_ref(rng, n, 0.25, rel, ifaces, p_iface), rng.choice(['', '', 'x']), rng.choice([None, None] + [r['name'] for r in routes]))
              for _ in range(rng.choice([1, 2, 2, 3]))]
     rich = rng.random() < 0.3
     for t in range(nregs):
         if rng.random() < 0.7:
             ctx, name, route = rng.choice(focus)
         else:
-            ctx, name, route = gen_ctx_ref(rng, n, 0.3, rel), rng.choice(['', '', 'x']), rng.choice([None, None] + [r['name'] for r in routes])
+            ctx, name, route = gen_ctx_ref(rng, n, 0.3, rel, ifaces, p_iface), rng.choice(['', '', 'x']), rng.choice([None, None] + [r['name'] for r in routes])
         if regs and rng.random() < 0.12:
             # deliberate re-registration with the same predicates (override)
             src = rng.choice(regs)
@@ -773,8 +845,11 @@ def gen_app(rng, big=False):
         o, notted, accept = gen_opts(rng, n, routes, offers, rich, rel, p_accept)
         regs.append({'ctx': ctx, 'name': name, 'route': route, 'opts': o, 'not': notted, 'accept': accept,
                      'perm': rng.random() < 0.15, 'tag': t + 1})
-    return {'classes': classes, 'tree': tree, 'routes': routes, 'regs': regs,
-            'commit': rng.choice(['auto', 'auto', 'each']), 'nf': True}
+    app = {'classes': classes, 'tree': tree, 'routes': routes, 'regs': regs,
+           'commit': rng.choice(['auto', 'auto', 'each']), 'nf': True}
+    if marks:
+        app['marks'] = marks
+    return app
 
 
 def gen_request(rng, app):
@@ -955,6 +1030,47 @@ def family_cases(nviews):
             yield family_case(views, acc)
 
 
+# ------------------------------------------------------------------------------------------------------
+# "marking family": a class view, a marker-interface view, or both (either registration order) for one context, and the
+# point at which the context instance gets the marker: never / class-level @implementer / on the instance when the tree is
+# built / root factory / __getitem__ during traversal / NewRequest / BeforeTraversal / ContextFound subscriber; context = the
+# root or its child.  The interface view is more specific for a marked instance (an instance's directly provided
+# interfaces come first in its resolution order), so it must win whenever the marker is there when the lookup starts.
+MARKING_POINTS = ('never', 'class', 'instance') + MARK_POINTS
+
+
+def marking_case(views, point, child, extra_pred=False):
+    depth = 1 if child else 0
+    classes = [{'bases': [], 'impl': []}, {'bases': [], 'impl': [3] if point == 'class' else []}]
+    tree = [{'cls': 0, 'named': True, 'provides': []}, {'cls': 1, 'named': True, 'provides': []}]
+    if not child:
+        tree = [{'cls': 1, 'named': True, 'provides': []}]
+    if point == 'instance':
+        tree[depth]['provides'] = [3]
+    regs = []
+    for t, v in enumerate(views):
+        ctx = ['c', 1] if v == 'class' else ['i', 3]
+        regs.append({'ctx': ctx, 'name': '', 'route': None, 'opts': ({'request_method': 'GET'} if extra_pred and v == 'class' else {}),
+                     'not': [], 'accept': None, 'perm': False, 'tag': t + 1})
+    case = {'classes': classes, 'tree': tree, 'routes': [], 'regs': regs, 'commit': 'auto', 'nf': True,
+            'req': {'path': '/k1' if child else '/', 'method': 'GET', 'qs': '', 'body': None, 'ctype': None, 'headers': [],
+                    'accept': None, 'xhr': None, 'auth': False, 'permitted': True, 'custom': []}}
+    if point in MARK_POINTS:
+        node = 'ctx' if point == 'context_found' else depth
+        if point == 'traversal' and not child:
+            node = 0            # the root is never handed out by a __getitem__: the mark does not happen (like "never")
+        case['marks'] = [{'at': point, 'node': node, 'op': 'also', 'iface': 3}]
+    return case
+
+
+def marking_cases():
+    for views in (['class'], ['iface'], ['class', 'iface'], ['iface', 'class']):
+        for point in MARKING_POINTS:
+            for child in (False, True):
+                for extra in ((False, True) if 'class' in views else (False,)):
+                    yield marking_case(views, point, child, extra)
+
+
 def gen_cases(rng, napps, nreq, big=False):
     for _ in range(napps):
         app = gen_app(rng, big=big)
@@ -1037,6 +1153,15 @@ def shrink_case(case, pred):
         c = dict(cur, commit='auto')
         if ok(c):
             cur = c
+    changed = True
+    while changed and cur.get('marks'):
+        changed = False
+        for i in range(len(cur['marks'])):
+            ms = cur['marks'][:i] + cur['marks'][i + 1:]
+            c = dict(cur, marks=ms) if ms else {k: v for k, v in cur.items() if k != 'marks'}
+            if ok(c):
+                cur = c; changed = True
+                break
     return cur
 
 
@@ -1077,6 +1202,7 @@ def run(ctx):
     cases += list(gen_cases(rng, napps, nreq))
     cases += list(gen_cases(rng, ctx.n(30, 600), nreq, big=True))
     cases += list(gen_race_cases(rng, ctx.n(400, 3000)))
+    cases += list(marking_cases())
     fam2 = list(family_cases(2))
     fam3 = list(family_cases(3))
     cases += fam2 + (rng.sample(fam3, 500) if ctx.tier == 'quick' else fam3)
@@ -1121,6 +1247,13 @@ def run(ctx):
             vfutil.bump(dist['candidates'], min(st['cands'], 6))
             vfutil.bump(dist['qualifying'], min(st['qual'], 4))
         vfutil.bump(dist['commit_mode'], case.get('commit', 'auto'))
+        if case.get('marks'):
+            dist.setdefault('runtime_marked_cases', 0)
+            dist['runtime_marked_cases'] += 1
+            for m_ in case['marks']:
+                vfutil.bump(dist.setdefault('mark_points', {}), m_['at'] + ':' + m_['op'])
+            if res['minfo'] and 3 in res['minfo']['req']['csro']:
+                dist['context_provides_runtime_marker'] = dist.get('context_provides_runtime_marker', 0) + 1
         if res['minfo']:
             a = res['minfo']['req']
             vfutil.bump(dist['csro_len'], len(a['csro']))
@@ -1253,6 +1386,12 @@ def search(ctx):
                 return {'violations': viol, 'searched': n, 'exhaustive': False}
         if viol:
             return {'violations': viol, 'searched': n, 'exhaustive': False}
+    # marking family: class view / marker-interface view / both x the point at which the context instance is marked
+    for case in marking_cases():
+        if try_case(case) and len(viol) >= 3:
+            return {'violations': viol, 'searched': n, 'exhaustive': False}
+    if viol:
+        return {'violations': viol, 'searched': n, 'exhaustive': False}
     # accept family: every 2-view and 3-view population over FAMILY_OFFERS x FAMILY_OPTS in every order x 8 Accept headers
     for nv in (2, 3):
         for case in family_cases(nv):
